@@ -26,11 +26,24 @@ pub fn run_setup(subseed: u64, start_s: i64) {
         1 => 5 + (h >> 8) as usize % 60,
         _ => 0,
     };
+    // second knob: how far apart two blobs of a pack may lie and how long a read may get for them to be fetched
+    // in one partial read (built-in 256 KiB / 40 MiB: with simulation-sized packs everything coalesces,
+    // so the "cannot coalesce" paths of restore and repacking would never run)
+    let h2 = crate::rng::hash64(&[b"knob:pack-read-limits", &subseed.to_le_bytes()]);
+    let limits = match h2 % 8 {
+        0 => Some((0, 40 << 20)),                       // no holes
+        1 => Some(((h2 >> 8) as u32 % 600, 40 << 20)),  // small holes only
+        2 => Some((256 << 10, 4096 + (h2 >> 8) as u32 % 60_000)), // short reads
+        _ => None,
+    };
+    rustic_core::verif::set_pack_read_limits(limits);
+    KNOB_READ.store(usize::from(limits.is_some()), std::sync::atomic::Ordering::SeqCst);
     rustic_core::verif::set_indexer_max_count(knob);
     KNOB_INDEXER.store(knob, std::sync::atomic::Ordering::SeqCst);
 }
 
 pub static KNOB_INDEXER: std::sync::atomic::AtomicUsize = std::sync::atomic::AtomicUsize::new(0);
+pub static KNOB_READ: std::sync::atomic::AtomicUsize = std::sync::atomic::AtomicUsize::new(0);
 
 /// Epoch of the nonce PRF: the number of gate releases so far (scheduled mode) plus the number of
 /// store operations performed while no scheduler is active (free mode).
